@@ -562,8 +562,12 @@ def check_term_classes(prog, rep):
                 if fs is not None:
                     cmp_bounds |= {str(x) for x in fs}
     ow_bounds = set()
+    conn_alias = {'self.connections'} | {
+        s_.targets[0].id for s_ in stmts_of(f) if isinstance(s_, ast.Assign) and isinstance(
+            s_.targets[0], ast.Name) and unparse(s_.value) == 'self.connections'}
     for s_ in stmts_of(f):
-        if isinstance(s_, ast.Assign) and 'self.connections[' in unparse(s_.targets[0]):
+        if isinstance(s_, ast.Assign) and isinstance(s_.targets[0], ast.Subscript) and unparse(
+                s_.targets[0].value) in conn_alias:
             v = s_.value
             parts = [v]
             if isinstance(v, ast.BinOp) and isinstance(v.op, ast.Add):
